@@ -20,6 +20,8 @@ pub enum Tr {
     DropReq(Path),
     AbortGroup(u16),
     AbortTask(Path),
+    /// the shell spawned a further task (path, body) on the n-th command returned by update
+    LateSpawn(usize, Path, Vec<crate::dsl::Stmt>),
     // ---- leaf level (L1 invariants)
     FirstPoll(Path),
     /// (leaf, nonce, digest of the whole value received)
@@ -69,7 +71,7 @@ thread_local! {
 pub fn witness_only(trace: &[Tr]) -> Vec<Tr> {
     trace
         .iter()
-        .filter(|t| matches!(t, Tr::Polled(_) | Tr::Done(_) | Tr::Dropped(_) | Tr::DroppedUnstarted(_) | Tr::Update(_) | Tr::Resolve(..) | Tr::DropReq(_) | Tr::AbortGroup(_) | Tr::AbortTask(_)))
+        .filter(|t| matches!(t, Tr::Polled(_) | Tr::Done(_) | Tr::Dropped(_) | Tr::DroppedUnstarted(_) | Tr::Update(_) | Tr::Resolve(..) | Tr::DropReq(_) | Tr::AbortGroup(_) | Tr::AbortTask(_) | Tr::LateSpawn(..)))
         .cloned()
         .collect()
 }
